@@ -182,7 +182,7 @@ def op_sim_fault(driver, kind, at, cmd, k, v):
 def run_op(rig, kind, at, cmd, k, v):
     scn, fn = OP.prepare(rig, kind)
     rig.chip.arm(op_sim_fault(rig.driver, kind, at, cmd, k, v) if at else None)
-    o, x, val = OP.classify(fn)
+    o, x, val = fn() if kind in OP.CLOSE_KINDS else OP.classify(fn)
     return o, x, OP.same(scn, o, val)
 
 
@@ -227,6 +227,8 @@ def op_key_of(e, n):
     out = o if o != "Internal" else e["x"]
     if o == "Hang":
         return "%s:send_command:no-answer->Hang" % fam
+    if e["k"] in OP.CLOSE_KINDS:
+        return "clf:%s:closed-while-waiting-for-the-lock->%s" % (meth, out)
     if e["at"] == 0:
         if OP.scenario(d, e["k"]).expect == "Unsupported":
             return "%s:%s:unsupported-bitrate->%s" % (fam, meth, out)
@@ -383,7 +385,7 @@ def run(tier, seed):
                 e["d"], e["k"], e["f"], e["v"], e["at"], e["c"], e["o"], e["x"], sorted(why[4][1]) if len(why) > 4 else "?"),
                 replay=dict(kind="case", driver=e["d"], k=e["k"], at=e["at"], f=e["f"], v=e["v"]))
     nop = sum(len(b["ev"]) for b in batches if b["slice"]["k"] in OP.OP_KINDS)
-    ck.cover(operation_cases=nop, exchange_cases=ncase - nop if accepted == len(batches) else None,
+    ck.cover(operation_cases=nop, exchange_cases=sum(len(b["ev"]) for b in batches) - nop,
              operation_slices=sum(1 for b in batches if b["slice"]["k"] in OP.OP_KINDS))
     ck.cover(traces_validated_against_impl=ncase, slices_accepted=accepted, slices=len(batches),
              trace_states=stats["states"], distinct_outcome_classes=len(classes),
